@@ -40,6 +40,8 @@ var validTemplates = []string{
 }
 
 var nameTemplates = [][2]string{
+	// + and - where any type may stand (nothing is required of the operands): every operand is still a use
+	{"vars {\n number $x\n number $y\n}\nset_tx_meta(\"k\", $x + $y)\nset_account_meta(@a, \"j\", $y - 1 + $x)", "x,y,q"},
 	{"vars {\n account $x\n monetary $z = balance($x, USD)\n account $w\n}\nsend $z (\n source = @world\n destination = $w\n)", "x,z,w"},
 	{"vars {\n monetary $x\n account $y\n}\nsend $x (\n source = $y\n destination = $y\n)", "x,y,z"},
 	{"vars {\n account $x\n asset $y\n monetary $z = balance($x, $y)\n}\nsend $z (\n source = @world\n destination = $x\n)", "x,y,z"},
@@ -61,7 +63,7 @@ func init() {
 			}
 			nt := nameTemplates
 			if tier != "thorough" {
-				nt = nt[:7]
+				nt = nt[:8]
 			}
 			for _, t := range nt {
 				cases = append(cases, Case{ID: "names " + strings.ReplaceAll(t[0], "\n", " "), Pkg: "internal/analysis", Fn: "ZZC16Names", Args: []string{t[0], t[1]}, Tag: "names"})
